@@ -431,27 +431,28 @@ def c09_faults(env, thorough):
         mk, tid = engine.marks(run0.calls)
         b = [i for i, t in mk if t == 'B:0'][0]
         e = [i for i, t in mk if t.startswith('E:0')][0]
-        nth, window = 0, []
+        # the calls whose failure an operation could swallow: the flushes and the opening of the directory to flush
+        count, window = {}, []
         for i, c in enumerate(run0.calls):
-            if c.name == 'fsync':
-                nth += 1
+            if c.name in ('fsync', 'openat', 'close'):
+                count[c.name] = count.get(c.name, 0) + 1
                 if b < i < e and c.tid == tid:
-                    window.append(nth)
-        for k, nth in enumerate(window):
-            for errno in ('EIO', 'ENOSPC'):
+                    window.append((c.name, count[c.name], sum(1 for w in window if w[0] == c.name) + 1))
+        for name, nth, k in window:
+            for errno in {'fsync': ('EIO', 'ENOSPC'), 'openat': ('EMFILE', 'EIO'), 'close': ('EIO',)}[name]:
                 res = 'not-landed'
                 for attempt in range(4):
-                    res = _c09_history(env, 'fault:%s:fsync#%d' % (opname, k + 1), setup, auxf, [step], init, inject='fsync:error=%s:when=%d' % (errno, nth))
+                    res = _c09_history(env, 'fault:%s:%s#%d' % (opname, name, k), setup, auxf, [step], init, inject='%s:error=%s:when=%d' % (name, errno, nth))
                     if res != 'not-landed':
                         break
                 if res == 'not-landed':
-                    raise TraceError('fsync fault #%d into %s did not land inside the operation window in 4 attempts' % (k + 1, opname))
-                outcomes['%s:fsync#%d:%s' % (opname, k + 1, errno)] = res
-                env.distinct.add((opname, k, errno, res))
+                    raise TraceError('%s fault #%d into %s did not land inside the operation window in 4 attempts' % (name, k, opname))
+                outcomes['%s:%s#%d:%s' % (opname, name, k, errno)] = res
+                env.distinct.add((opname, name, k, errno, res))
                 env.cov['fault_runs'] = env.cov.get('fault_runs', 0) + 1
     env.samples.append({'outcome_per_failed_fsync': outcomes})
     return env.evidence(
-        'for each of init, add, update, set-admin, remove: every fsync of the operation fails once (EIO, ENOSPC; strace inject, position verified); if the operation still reports success, every power-loss image at its acknowledgement '
+        'for each of init, add, update, set-admin, remove: every fsync (EIO, ENOSPC), every openat (EMFILE, EIO) and every close (EIO) of the operation fails once (strace inject, position verified); if the operation still reports success, every power-loss image at its acknowledgement '
         '(every subset of pending directory operations x every prefix of pending writes, the failed fsync having made nothing durable) must show the acknowledged change (abstract + byte-exact oracle of the durability part); '
         'operations that report the failure are outside this property (C15)',
         ['single fault per run', 'a failed fsync makes nothing durable (the kernel may have written some of it: those states are a subset of the images explored)'])
